@@ -1,6 +1,8 @@
 package props
 
 import (
+	"math/big"
+	"strings"
 	"testing"
 
 	"github.com/db47h/decimal"
@@ -36,6 +38,65 @@ func genFMA(t *rapid.T, specials bool) C03Case {
 	}
 	inRange := func(v model.Val) bool {
 		return v.Form != model.Finite || v.Exp <= model.MaxExp && v.Exp >= model.MinExp
+	}
+	if rapid.IntRange(0, 7).Draw(t, "boundary") == 0 {
+		// a product with few significant digits (often an exact power of ten) and an addend placed around the
+		// receiver's last digit position, mostly of the opposite sign: the sum then crosses a decade downwards and the
+		// rounding boundary moves inside what looked like a negligible addend
+		i := rapid.IntRange(0, 25).Draw(t, "b.i")
+		xv := model.MkFinite(rapid.Bool().Draw(t, "b.xneg"), new(big.Int).Exp(big.NewInt(2), big.NewInt(int64(i)), nil).String(), 0)
+		yv := model.MkFinite(rapid.Bool().Draw(t, "b.yneg"), new(big.Int).Exp(big.NewInt(5), big.NewInt(int64(i)), nil).String(), 0)
+		if rapid.IntRange(0, 2).Draw(t, "b.short") == 0 {
+			xv = model.MkFinite(xv.Neg, h.GenDigitsN(t, "b.xd", rapid.IntRange(1, 3).Draw(t, "b.xn")), 0)
+			yv = model.MkFinite(yv.Neg, h.GenDigitsN(t, "b.yd", rapid.IntRange(1, 3).Draw(t, "b.yn")), 0)
+		}
+		xv.Exp += int64(rapid.IntRange(-40, 40).Draw(t, "b.xe"))
+		yv.Exp += int64(rapid.IntRange(-40, 40).Draw(t, "b.ye"))
+		prod := model.MulX(xv, yv).Val
+		p := rapid.SampledFrom([]int{1, 2, 5, 18, 19, 20, 37, 38, 39, 57, 76}).Draw(t, "b.p")
+		if rapid.Bool().Draw(t, "b.prand") {
+			p = rapid.IntRange(1, 80).Draw(t, "b.p2")
+		}
+		ud := rapid.SampledFrom([]string{"5", "7", "51", "49", "9", "1", "4999999", "5000001", "99"}).Draw(t, "b.ud")
+		if rapid.Bool().Draw(t, "b.udrand") {
+			ud = h.GenDigits(t, "b.udg", 25)
+		}
+		uv := model.MkFinite(prod.Neg != (rapid.IntRange(0, 3).Draw(t, "b.opp") > 0), ud, prod.Exp-int64(p)+int64(rapid.IntRange(-2, 2).Draw(t, "b.off")))
+		c.X, c.Y, c.U = mk(xv, "x"), mk(yv, "y"), mk(uv, "u")
+		if rapid.Bool().Draw(t, "b.tightprec") {
+			// operands stored at exactly one or two words
+			c.X.P, c.Y.P = uint(19*((len(c.X.D)+18)/19)), uint(19*((len(c.Y.D)+18)/19))
+		}
+		c.P = uint(p)
+		c.Alias = rapid.SampledFrom([]string{"", "", "u", "x"}).Draw(t, "alias")
+		return c
+	}
+	if rapid.IntRange(0, 11).Draw(t, "sparse") == 0 {
+		// decade-crossing cancellation: the product reads 1 000...0 d 000...0 d (several words, mostly zeros) and the
+		// addend is -(999...9) one exponent below: the result's leading digits come from deep inside the product
+		gap := func(l string) string {
+			return strings.Repeat("0", rapid.SampledFrom([]int{0, 1, 5, 17, 18, 19, 20, 36, 37, 38, 40, 56, 57, 75}).Draw(t, l))
+		}
+		dg := func(l string) string { return string(byte('1' + rapid.IntRange(0, 8).Draw(t, l))) }
+		xd := "1" + gap("s.g1") + dg("s.d1") + gap("s.g2") + dg("s.d2")
+		if rapid.Bool().Draw(t, "s.more") {
+			xd += gap("s.g3") + h.GenDigits(t, "s.tail", 30)
+		}
+		xv := model.MkFinite(rapid.Bool().Draw(t, "s.xneg"), xd, int64(rapid.IntRange(-60, 120).Draw(t, "s.xe")))
+		yv := model.MkFinite(rapid.Bool().Draw(t, "s.yneg"), rapid.SampledFrom([]string{"1", "1", "1", "10", "1000000000000000000000"}).Draw(t, "s.y"), int64(rapid.IntRange(-5, 5).Draw(t, "s.ye")))
+		prod := model.MulX(xv, yv).Val
+		m := rapid.SampledFrom([]int{1, 2, 18, 19, 20, 36, 37, 38, 39, 57}).Draw(t, "s.m")
+		uv := model.MkFinite(!prod.Neg, strings.Repeat("9", m), prod.Exp-1)
+		if rapid.IntRange(0, 4).Draw(t, "s.same") == 0 {
+			uv.Exp = prod.Exp
+		}
+		c.X, c.Y, c.U = mk(xv, "x"), mk(yv, "y"), mk(uv, "u")
+		c.P = uint(rapid.SampledFrom([]int{1, 2, 18, 19, 20, 37, 38, 39, 57}).Draw(t, "s.p"))
+		if rapid.Bool().Draw(t, "s.prand") {
+			c.P = uint(rapid.IntRange(1, 90).Draw(t, "s.p2"))
+		}
+		c.Alias = rapid.SampledFrom([]string{"", "", "u", "x"}).Draw(t, "alias")
+		return c
 	}
 	switch {
 	case shape == 0:
@@ -287,7 +348,7 @@ func checkC03(c C03Case, o *h.Obs) *h.Fail {
 	return nil
 }
 
-const ruleC03 = "rapid-generated (x, y, u, precision, mode, aliasing shape): small scope (1-3 digit operands, precision 1-4), massive cancellation u=-(x*y)+delta, products carrying a tie/all-nines pattern at the precision with u one unit far below (single vs double rounding), zero and infinite operands in every position, product exponent near the range ends, generic word-patterned operands up to 300 (quick) / 4000 (thorough) digits; receiver fresh or aliased to x, y, u, x=y, x=u. Oracle: exact big.Int x*y+u rounded once (value, sign incl. IEEE zero-sum rule, accuracy), ErrNaN exactly for 0*Inf and Inf-Inf. Non-trivial = special operand, aliased receiver, Mul-then-Add would differ, exactly zero sum, or cancellation removing at least half of the product's digits. Cases whose exact product exponent leaves [MinExp,MaxExp] are excluded while the known finding F-03c is listed (counted under excluded_known)."
+const ruleC03 = "rapid-generated (x, y, u, precision, mode, aliasing shape): small scope (1-3 digit operands, precision 1-4), massive cancellation u=-(x*y)+delta, products carrying a tie/all-nines pattern at the precision with u one unit far below (single vs double rounding), products with one to three significant digits (often exact powers of ten, 2^i * 5^i) with the addend placed within two digits of the receiver's last digit position and mostly of opposite sign (the sum crosses a decade), sparse multi-word products 1 0..0 d 0..0 d against an addend -(99..9) one exponent below (decade-crossing cancellation that brings deep product digits to the front), zero and infinite operands in every position, product exponent near the range ends, generic word-patterned operands up to 300 (quick) / 4000 (thorough) digits; receiver fresh or aliased to x, y, u, x=y, x=u. Oracle: exact big.Int x*y+u rounded once (value, sign incl. IEEE zero-sum rule, accuracy), ErrNaN exactly for 0*Inf and Inf-Inf. Non-trivial = special operand, aliased receiver, Mul-then-Add would differ, exactly zero sum, or cancellation removing at least half of the product's digits. Cases whose exact product exponent leaves [MinExp,MaxExp] are excluded while the known finding F-03c is listed (counted under excluded_known)."
 
 var propC03 = &h.Prop[C03Case]{ID: "C03", Rule: ruleC03, Gen: genC03, Check: checkC03,
 	Matchers: map[string]func(C03Case) bool{"fma-product-exp-out-of-range": fmaProductOutOfRange}}
